@@ -141,6 +141,15 @@ def cases(tier, rng, schema, feats):
         if L % 7 == 0:
             add("len", "dec2", cm(user(name=s)).hex())
             add("len", "dec2", mc(user(name=s), rp(name=s)).hex())
+    # icons and names that START with something a helper might single out (URL schemes, markup, quoting, literals), at lengths
+    # below, at and above the limits
+    for pre in gen.TEXT_PREFIXES:
+        for total in (len(pre.encode()), 43, 127, 128, 129, 200):
+            body = (pre + "x" * max(0, total - len(pre.encode()))).encode()
+            add("prefix", "decty", U, cbor.enc(user(icon=cbor.T(body))).hex())
+            add("prefix", "decty", U, cbor.enc(user(name=cbor.T(body[:70]), display=cbor.T(body[:64]))).hex())
+            add("prefix", "decty", R, cbor.enc(rp(name=cbor.T(body[:66]))).hex())
+        add("prefix", "dec2", mc(user(icon=cbor.T((pre + "image/gif;base64,R0lGODlhAQABAAAAACw=").encode()))).hex())
     for L in range(0, 301):
         ic = cbor.T(gen.utf8_text(rng, L))
         add("icon", "decty", U, cbor.enc(user(icon=ic)).hex())
